@@ -17,6 +17,10 @@ use std::fmt::Write as _;
 use std::str::FromStr;
 use std::sync::mpsc;
 use std::time::Duration;
+use futures_util::FutureExt as _;
+use yash_syntax::input::Memory;
+use yash_syntax::parser::lex::{Lexer, Operator};
+use yash_syntax::parser::{Error, ErrorCause, Parser};
 use yash_syntax::syntax::*;
 use yverif::proto::*;
 use yverif::rng::Rng;
@@ -392,39 +396,411 @@ struct Outcome {
     oracle: String,
 }
 
+fn part(f: impl FnOnce(&mut Sx)) -> (String, bool) {
+    let mut sx = Sx { out: String::new(), heredocs: vec![] };
+    f(&mut sx);
+    (canon(&sx.out), !sx.heredocs.is_empty())
+}
+
+/// `List::from_str` with the parser mode made explicit (`from_str.rs` uses the default, non-portable mode)
+fn parse_list(src: &str, portable: bool) -> Result<List, Error> {
+    let mut config = yash_env::parser::Config::with_input(Box::new(Memory::new(src)));
+    config.mode.portable = portable;
+    let mut lexer = Lexer::from(config);
+    let mut parser = Parser::new(&mut lexer);
+    let list = parser.maybe_compound_list().now_or_never().expect("no blocking")?;
+    parser.ensure_no_unread_here_doc()?;
+    Ok(list)
+}
+
+/// the entry point the shell itself uses: one `command_line` after the other until the end of input
+fn parse_lines(src: &str, portable: bool) -> Result<Vec<List>, Error> {
+    let mut config = yash_env::parser::Config::with_input(Box::new(Memory::new(src)));
+    config.mode.portable = portable;
+    let mut lexer = Lexer::from(config);
+    let mut parser = Parser::new(&mut lexer);
+    let mut out = vec![];
+    for _ in 0..src.len() + 2 {
+        match parser.command_line().now_or_never().expect("no blocking")? {
+            Some(l) => out.push(l),
+            None => return Ok(out),
+        }
+    }
+    panic!("command_line does not reach the end of input");
+}
+
+/// name of the `SyntaxError` variant (or `Io`)
+fn variant(e: &Error) -> String {
+    let d = format!("{:?}", e.cause);
+    let d = d.strip_prefix("Syntax(").unwrap_or(&d);
+    d.chars().take_while(|c| c.is_ascii_alphanumeric()).collect()
+}
+
+/// error reporting must be total too: every accessor and the report conversion
+fn exercise_error(e: &Error) {
+    let _ = e.to_string();
+    let _ = e.cause.message();
+    let _ = e.cause.label();
+    let _ = e.cause.footnotes();
+    let _ = e.cause.related_location();
+    let _ = e.to_report();
+    if let ErrorCause::Syntax(se) = &e.cause {
+        let _ = se.message();
+        let _ = se.label();
+        let _ = se.footnotes();
+        let _ = se.related_location();
+        let _ = format!("{se}");
+    }
+}
+
+/// Sub-tree legs: every node is printed on its own and read back through its own `FromStr`
+/// (`from_str.rs`). Parser-level nodes must read back equal; lexical nodes that depend on their
+/// quoting context are only required not to panic.
+struct Sub {
+    fail: Option<String>,
+}
+
+impl Sub {
+    fn check<T: FromStr + ToString>(&mut self, kind: &str, node: &T, sx: impl Fn(&T) -> (String, bool), strict: bool) {
+        if self.fail.is_some() {
+            return;
+        }
+        let (sx1, has_heredoc) = sx(node);
+        let text = node.to_string();
+        match T::from_str(&text) {
+            Ok(n2) => {
+                if strict && !has_heredoc {
+                    let (sx2, _) = sx(&n2);
+                    if sx1 != sx2 {
+                        self.fail = Some(format!("FAIL:{kind}-reads-back-differently({})", enc_str(&text)));
+                    } else if n2.to_string() != text {
+                        self.fail = Some(format!("FAIL:{kind}-second-print-differs({})", enc_str(&text)));
+                    }
+                }
+            }
+            Err(_) => {
+                if strict && !has_heredoc {
+                    self.fail = Some(format!("FAIL:{kind}-rejected({})", enc_str(&text)));
+                }
+            }
+        }
+    }
+    fn escapes(&mut self, es: &EscapedString) {
+        self.check("escaped-string", es, |n| part(|s| s.escapes(&n.0)), true);
+        for u in &es.0 {
+            self.check("escape-unit", u, |n| part(|s| s.escapes(std::slice::from_ref(n))), true);
+        }
+    }
+    fn text_unit(&mut self, u: &TextUnit) {
+        self.check("text-unit", u, |n| part(|s| s.text_unit(n)), false);
+        match u {
+            TextUnit::BracedParam(bp) => {
+                self.check("braced-param", bp, |n| part(|s| s.text_unit(&TextUnit::BracedParam(n.clone()))), false);
+                match &bp.modifier {
+                    Modifier::Switch(sw) => self.word(&sw.word, false),
+                    Modifier::Trim(t) => self.word(&t.pattern, false),
+                    _ => {}
+                }
+            }
+            TextUnit::Arith { content, .. } => self.text(content),
+            _ => {}
+        }
+    }
+    fn text(&mut self, t: &Text) {
+        self.check("text", t, |n| part(|s| s.text_units(&n.0)), false);
+        for u in &t.0 {
+            self.text_unit(u);
+        }
+    }
+    fn word(&mut self, w: &Word, token_level: bool) {
+        // a word printed on its own is read with no delimiter and without tilde parsing
+        let strict = token_level && !w.units.iter().any(|u| matches!(u, WordUnit::Tilde { .. }));
+        self.check("word", w, |n| part(|s| s.word(n)), strict);
+        for u in &w.units {
+            self.check("word-unit", u, |n| part(|s| s.word(&Word { units: vec![n.clone()], location: w.location.clone() })), false);
+            match u {
+                WordUnit::Unquoted(t) => self.text_unit(t),
+                WordUnit::DoubleQuote(t) => self.text(t),
+                WordUnit::DollarSingleQuote(es) => self.escapes(es),
+                _ => {}
+            }
+        }
+    }
+    fn redir(&mut self, r: &Redir) {
+        self.check("redirection", r, |n| part(|s| s.redir(n)), true);
+        match &r.body {
+            RedirBody::Normal { operator, operand } => {
+                if RedirOp::from_str(&operator.to_string()).ok() != Some(*operator) {
+                    self.fail.get_or_insert(format!("FAIL:redir-operator-reads-back-differently({operator})"));
+                }
+                self.word(operand, true);
+            }
+            RedirBody::HereDoc(h) => self.word(&h.delimiter, true),
+        }
+    }
+    fn simple(&mut self, c: &SimpleCommand) {
+        self.check("simple-command", c, |n| part(|s| s.simple(n)), true);
+        for a in &c.assigns {
+            self.check("assignment", a, |n| part(|s| s.simple(&SimpleCommand { assigns: vec![n.clone()], words: vec![], redirs: vec![].into() })), true);
+            self.check("value", &a.value, |n| part(|s| s.simple(&SimpleCommand { assigns: vec![Assign { name: "x".into(), value: n.clone(), location: a.location.clone() }], words: vec![], redirs: vec![].into() })), true);
+            match &a.value {
+                Value::Scalar(w) => self.word(w, false),
+                Value::Array(ws) => ws.iter().for_each(|w| self.word(w, true)),
+            }
+        }
+        for (w, _) in &c.words {
+            self.word(w, true);
+        }
+        for r in c.redirs.iter() {
+            self.redir(r);
+        }
+    }
+    fn compound(&mut self, c: &CompoundCommand) {
+        self.check("compound-command", c, |n| part(|s| s.compound(n)), true);
+        match c {
+            CompoundCommand::Grouping(l) => self.list(l),
+            CompoundCommand::Subshell { body, .. } => self.list(body),
+            CompoundCommand::For { name, values, body } => {
+                self.word(name, true);
+                values.iter().flatten().for_each(|w| self.word(w, true));
+                self.list(body);
+            }
+            CompoundCommand::While { condition, body } | CompoundCommand::Until { condition, body } => {
+                self.list(condition);
+                self.list(body);
+            }
+            CompoundCommand::If { condition, body, elifs, r#else } => {
+                self.list(condition);
+                self.list(body);
+                for e in elifs {
+                    self.list(&e.condition);
+                    self.list(&e.body);
+                }
+                r#else.iter().for_each(|l| self.list(l));
+            }
+            CompoundCommand::Case { subject, items } => {
+                self.word(subject, true);
+                for i in items {
+                    self.check("case-item", i, |n| part(|s| s.compound(&CompoundCommand::Case { subject: subject.clone(), items: vec![n.clone()] })), true);
+                    if Operator::from_str(&i.continuation.to_string()).ok().and_then(|o| CaseContinuation::try_from(o).ok()) != Some(i.continuation) {
+                        self.fail.get_or_insert("FAIL:case-terminator-reads-back-differently".to_string());
+                    }
+                    i.patterns.iter().for_each(|w| self.word(w, true));
+                    self.list(&i.body);
+                }
+            }
+        }
+    }
+    fn full(&mut self, c: &FullCompoundCommand) {
+        self.check("full-compound-command", c, |n| part(|s| s.full(n)), true);
+        self.compound(&c.command);
+        c.redirs.iter().for_each(|r| self.redir(r));
+    }
+    fn command(&mut self, c: &Command) {
+        self.check("command", c, |n| part(|s| s.command(n)), true);
+        match c {
+            Command::Simple(c) => self.simple(c),
+            Command::Compound(c) => self.full(c),
+            Command::Function(f) => {
+                self.word(&f.name, true);
+                self.full(&f.body);
+            }
+        }
+    }
+    fn pipeline(&mut self, p: &Pipeline) {
+        self.check("pipeline", p, |n| part(|s| s.pipeline(n)), true);
+        p.commands.iter().for_each(|c| self.command(c));
+    }
+    fn list(&mut self, l: &List) {
+        for i in &l.0 {
+            self.check("and-or-list", &*i.and_or, |n| {
+                part(|s| {
+                    s.pipeline(&n.first);
+                    for (op, p) in &n.rest {
+                        s.out.push_str(&format!("{op} "));
+                        s.pipeline(p);
+                    }
+                })
+            }, true);
+            for (op, _) in &i.and_or.rest {
+                if AndOr::from_str(&op.to_string()).ok() != Some(*op) {
+                    self.fail.get_or_insert("FAIL:and-or-operator-reads-back-differently".to_string());
+                }
+            }
+            self.pipeline(&i.and_or.first);
+            i.and_or.rest.iter().for_each(|(_, p)| self.pipeline(p));
+        }
+    }
+}
+
+/// source of the printed form with empty here-document bodies supplied
+fn with_heredocs(printed: &str, heredocs: &[String]) -> String {
+    let mut s = printed.to_string();
+    if !heredocs.is_empty() {
+        s.push('\n');
+        for d in heredocs {
+            s.push_str(d);
+            s.push('\n');
+        }
+    }
+    s
+}
+
+fn roundtrip(list: &List, portable: bool) -> String {
+    let printed = list.to_string();
+    let (sx1, heredocs) = sx_of(list);
+    let src2 = with_heredocs(&printed, &heredocs);
+    let tag = if portable { "portable-" } else { "" };
+    match parse_list(&src2, portable) {
+        Err(e) => format!("FAIL:{tag}printed-text-rejected({})", variant(&e)),
+        Ok(l2) => {
+            let (sx2, _) = sx_of(&l2);
+            if sx2 != sx1 {
+                format!("FAIL:{tag}reparsed-tree-differs")
+            } else if l2.to_string() != printed {
+                format!("FAIL:{tag}second-print-differs")
+            } else {
+                "ok".to_string()
+            }
+        }
+    }
+}
+
+/// `SyntaxError` variants seen (mode, variant) with the shortest input that produced each
+static VARIANTS: std::sync::Mutex<std::collections::BTreeMap<(bool, String), String>> =
+    std::sync::Mutex::new(std::collections::BTreeMap::new());
+
+fn note_variant(portable: bool, e: &Error, src: &str) {
+    let mut v = VARIANTS.lock().unwrap_or_else(|p| p.into_inner());
+    let k = (portable, variant(e));
+    match v.get(&k) {
+        Some(old) if old.len() <= src.len() => {}
+        _ => {
+            v.insert(k, src.to_string());
+        }
+    }
+}
+
+/// Portable-mode round-trip failures reported to the coordinator and awaiting a decision (see
+/// notes/C06.md "Coverage triage"); they are not counted as violations until then.
+const PENDING_PORTABLE: &[&str] = &[
+    "FAIL:portable-printed-text-rejected(UnsupportedArithmeticCommand)",
+    "FAIL:portable-printed-text-rejected(ColonSuffixedCommandName)",
+];
+
+/// every `FromStr` entry point of `from_str.rs` on the raw input (totality; their errors are counted too)
+fn exercise_from_str(src: &str) -> Vec<String> {
+    let seen = std::cell::RefCell::new(vec![]);
+    let note_inner = |e: &Error| seen.borrow_mut().push(variant(e));
+    macro_rules! note {
+        ($r:expr, $src:expr) => {
+            if let Err(Some(e)) = $r {
+                exercise_error(&e);
+                note_variant(false, &e, $src);
+                note_inner(&e);
+            }
+        };
+    }
+    note!(BracedParam::from_str(src), src);
+    note!(TextUnit::from_str(src), src);
+    note!(Text::from_str(src).map_err(Some), src);
+    note!(EscapeUnit::from_str(src), src);
+    note!(EscapedString::from_str(src).map_err(Some), src);
+    note!(WordUnit::from_str(src), src);
+    note!(Word::from_str(src).map_err(Some), src);
+    note!(Value::from_str(src).map_err(Some), src);
+    note!(Assign::from_str(src), src);
+    let _ = Operator::from_str(src);
+    let _ = RedirOp::from_str(src);
+    let _ = AndOr::from_str(src);
+    note!(Redir::from_str(src), src);
+    note!(SimpleCommand::from_str(src), src);
+    note!(CaseItem::from_str(src), src);
+    note!(CompoundCommand::from_str(src), src);
+    note!(FullCompoundCommand::from_str(src), src);
+    note!(Command::from_str(src), src);
+    note!(Pipeline::from_str(src), src);
+    note!(AndOrList::from_str(src), src);
+    seen.into_inner()
+}
+
 fn evaluate(src: &str) -> Outcome {
     let mut tree = None;
     let mut oracle = "-".to_string();
-    let obs = guarded(|| match List::from_str(src) {
-        Err(_) => "syntax-error".to_string(),
-        Ok(list) => {
-            let printed = list.to_string();
-            let (sx1, heredocs) = sx_of(&list);
-            tree = Some(sx1.clone());
-            // the single-line form omits here-document contents by design: supply empty ones
-            let mut src2 = printed.clone();
-            if !heredocs.is_empty() {
-                src2.push('\n');
-                for d in &heredocs {
-                    src2.push_str(d);
-                    src2.push('\n');
+    let obs = guarded(|| {
+        let mut fails: Vec<String> = vec![];
+        let first = List::from_str(src);
+        // the same through the explicit-mode entry, and in the portable mode
+        let obs = match &first {
+            Err(e) => {
+                exercise_error(e);
+                note_variant(false, e, src);
+                "syntax-error".to_string()
+            }
+            Ok(list) => {
+                let printed = list.to_string();
+                let (sx1, _) = sx_of(list);
+                tree = Some(sx1.clone());
+                let r = roundtrip(list, false);
+                if r != "ok" {
+                    fails.push(r);
+                }
+                let mut sub = Sub { fail: None };
+                sub.list(list);
+                fails.extend(sub.fail);
+                format!("ok {}", enc_str(&printed))
+            }
+        };
+        if src.len() <= 400 {
+            let _ = exercise_from_str(src);
+        }
+        // line-by-line entry point of the shell (`Parser::command_line`)
+        match parse_lines(src, false) {
+            Err(e) => {
+                exercise_error(&e);
+                note_variant(false, &e, src);
+            }
+            Ok(lines) => {
+                // every line parsed: then the one-shot parse must agree item by item
+                let items: Vec<Item> = lines.into_iter().flat_map(|l| l.0).collect();
+                let (sxl, _) = sx_of(&List(items));
+                match &tree {
+                    Some(t) if *t == sxl => {}
+                    Some(_) => fails.push("FAIL:command-line-trees-differ-from-one-shot-parse".to_string()),
+                    None => fails.push("FAIL:command-line-accepts-what-from-str-rejects".to_string()),
                 }
             }
-            oracle = match List::from_str(&src2) {
-                Err(e) => format!("FAIL:printed-text-rejected({})", format!("{:?}", e.cause).replace(['\t', '\n', ' '], "_").chars().take(60).collect::<String>()),
-                Ok(l2) => {
-                    let (sx2, _) = sx_of(&l2);
-                    if sx2 != sx1 {
-                        "FAIL:reparsed-tree-differs".to_string()
-                    } else if l2.to_string() != printed {
-                        "FAIL:second-print-differs".to_string()
-                    } else {
-                        "ok".to_string()
-                    }
-                }
-            };
-            format!("ok {}", enc_str(&printed))
         }
+        // portable mode: total, and what it accepts prints to text it accepts again as the same tree
+        match parse_list(src, true) {
+            Err(e) => {
+                exercise_error(&e);
+                note_variant(true, &e, src);
+            }
+            Ok(pl) => {
+                let r = roundtrip(&pl, true);
+                if r != "ok" && !PENDING_PORTABLE.contains(&r.as_str()) {
+                    fails.push(r);
+                }
+                if let Some(t) = &tree {
+                    if *t != sx_of(&pl).0 {
+                        fails.push("FAIL:portable-mode-parses-a-different-tree".to_string());
+                    }
+                } else {
+                    fails.push("FAIL:portable-mode-accepts-what-the-default-mode-rejects".to_string());
+                }
+            }
+        }
+        if let Err(e) = parse_lines(src, true) {
+            exercise_error(&e);
+            note_variant(true, &e, src);
+        }
+        oracle = match fails.into_iter().next() {
+            Some(f) => f,
+            None if tree.is_some() => "ok".to_string(),
+            None => "-".to_string(),
+        };
+        obs
     });
     if obs.starts_with("PANIC") {
         oracle = "FAIL:panic".to_string();
@@ -474,6 +850,91 @@ impl Runner {
 
 const MAX_TREE: usize = 60_000;
 
+
+/// `F`: the script defines a function and prints it with `typeset -fp` (yash-builtin
+/// `typeset/print_functions.rs`); `J`: the script starts an asynchronous and-or list and prints the job
+/// table (`yash-semantics/src/command/item.rs` names the job with `and_or.to_string()`). The text shown to
+/// the user must read back as the tree that was entered.
+fn run_shell_case(is_fn: bool, tree: &str, script: &str) -> (String, String) {
+    let mut oracle = "-".to_string();
+    let obs = guarded(|| {
+        let o = yverif::shell::run_script(script);
+        let out = o.stdout_str();
+        if is_fn {
+            oracle = match List::from_str(&out) {
+                Ok(l) if l.0.len() == 1 && l.0[0].and_or.rest.is_empty() && l.0[0].and_or.first.commands.len() == 1 => {
+                    let (sx, _) = part(|s| s.command(&l.0[0].and_or.first.commands[0]));
+                    if sx == tree { "ok".to_string() } else { "FAIL:typeset-output-reads-back-as-a-different-function".to_string() }
+                }
+                Ok(_) => "FAIL:typeset-output-is-not-one-function-definition".to_string(),
+                Err(e) => format!("FAIL:typeset-output-rejected({})", variant(&e)),
+            };
+            format!("fn {}", enc_str(&out))
+        } else {
+            // `[1] + Running              name`
+            // the job's own output may come first: find the job table line
+            let table = out.find("[1] + ").map(|i| &out[i..]).unwrap_or("");
+            let name = table
+                .strip_prefix("[1] + ")
+                .and_then(|r| r.split_once(' '))
+                .map(|(_, r)| r.trim_start_matches(' ').split('\n').next().unwrap_or("").to_string());
+            match name {
+                None => format!("job-table {}", enc_str(&out)),
+                Some(name) => {
+                    oracle = match AndOrList::from_str(&name) {
+                        Ok(a) => {
+                            let (sx, _) = part(|s| {
+                                s.out.push_str("(ao ");
+                                s.pipeline(&a.first);
+                                for (op, p) in &a.rest {
+                                    s.out.push_str(match op {
+                                        AndOr::AndThen => "(and ",
+                                        AndOr::OrElse => "(or ",
+                                    });
+                                    s.pipeline(p);
+                                    s.out.push_str(") ");
+                                }
+                                s.out.push_str(") ");
+                            });
+                            if sx == tree { "ok".to_string() } else { "FAIL:job-name-reads-back-as-a-different-command".to_string() }
+                        }
+                        Err(Some(e)) => format!("FAIL:job-name-rejected({})", variant(&e)),
+                        Err(None) => "FAIL:job-name-rejected".to_string(),
+                    };
+                    format!("job {}", enc_str(&name))
+                }
+            }
+        }
+    });
+    if obs.starts_with("PANIC") {
+        oracle = "FAIL:panic".to_string();
+    }
+    (obs, oracle)
+}
+
+/// generated `F` and `J` cases
+fn shell_cases(seed: u64, is_fn: bool) -> Option<(String, String)> {
+    let mut g = G::new(seed, if is_fn { 6 } else { 0 }, false);
+    if is_fn {
+        g.depth = 1;
+        let (sx, src) = g.function_def();
+        if sx.contains("(h ") {
+            return None;
+        }
+        let name = src.split(['(', ' ']).next().unwrap_or("f").to_string();
+        let script = g.resolve(&format!("{src}{NL}typeset -fp {name}{NL}"));
+        Some((canon(&sx), script))
+    } else {
+        g.depth = 3;
+        let (sx, src) = g.and_or();
+        if sx.contains("(h ") || src.contains('\n') || src.contains(NL) {
+            return None;
+        }
+        let script = g.resolve(&format!("{src} &{NL}jobs{NL}"));
+        Some((canon(&sx), script))
+    }
+}
+
 /// `R` case; returns the `T` case derived from it when the input parses
 fn run_raw(r: &mut Runner, src: &str, derive: bool) {
     let case = format!("R {}", enc_str(src));
@@ -515,6 +976,38 @@ fn run_case(r: &mut Runner, case: &str) {
                 Some(src) => run_tree(r, tree, &src),
                 None => emit(case, "bad-case", "-"),
             },
+            None => emit(case, "bad-case", "-"),
+        }
+    } else if let Some(rest) = case.strip_prefix("F ").or_else(|| case.strip_prefix("J ")) {
+        match rest.rsplit_once(' ').and_then(|(t, h)| dec_str(h).map(|s| (t.to_string(), s))) {
+            Some((tree, script)) => {
+                let (obs, oracle) = run_shell_case(case.starts_with("F "), &tree, &script);
+                emit(case, &obs, &oracle);
+            }
+            None => emit(case, "bad-case", "-"),
+        }
+    } else if let Some(rest) = case.strip_prefix("E ").or_else(|| case.strip_prefix("EP ")) {
+        // `E <Variant> <hex source>`: the input is rejected with exactly this `SyntaxError` variant
+        // (`EP`: in the portable mode)
+        let portable = case.starts_with("EP ");
+        match rest.split_once(' ').and_then(|(v, h)| dec_str(h.trim()).map(|s| (v.to_string(), s))) {
+            Some((v, src)) => {
+                let obs = guarded(|| {
+                    let one = parse_list(&src, portable);
+                    let lines = parse_lines(&src, portable);
+                    let name = |r: Option<&Error>| r.map(variant).unwrap_or_else(|| "accepted".to_string());
+                    for e in [one.as_ref().err(), lines.as_ref().err()].into_iter().flatten() {
+                        exercise_error(e);
+                    }
+                    let a = name(one.as_ref().err());
+                    let b = name(lines.as_ref().err());
+                    let subs = if portable { vec![] } else { exercise_from_str(&src) };
+                    // one of the entry points (one-shot, line by line, a `FromStr` of a sub-syntax) reports the variant
+                    if a == v || b == v || subs.contains(&v) { format!("syntax-error:{v}") } else { format!("syntax-error:{a}/{b}") }
+                });
+                let oracle = if obs.starts_with("PANIC") { "FAIL:panic" } else { "-" };
+                emit(case, &obs, oracle);
+            }
             None => emit(case, "bad-case", "-"),
         }
     } else {
@@ -1685,6 +2178,7 @@ const U_BLANKS: &[char] = &['\u{a0}', '\u{3000}', '\u{2028}', '\u{2029}', '\u{85
 const U_OPS: &[char] = &['；', '＆', '｜', '（', '）', '＜', '＞', '＄', '｛', '｝', '＃', '～', '＝', '‘', '’', '“', '”', '＼', '｀', '－', '！', '＊', '？', '＠'];
 
 const TRIGGERS: &[&str] = &[
+    "99999999999>", "2147483648<", "case x in esac) ", "case x in (esac) ", "{x}>", "function ", "!(", "a: ", "((", "f: () ",
     "$", "${", "${#", "${x", "${x:-", "${x:", "${x#", "${x%%", "${1", "$((", "$(( 1+", "$(", "$1", "$x", "<<", "<<-", "<<<", "2", "10", "2>", ">", ">>", "<&", ">&", ">|", "#", "~", "~a", "=", "a=",
     "a", "\\", "$'", "$'\\u", "$'\\x", "$'\\c", "$'\\", "$'\\0", "`", "!", "! ", "{", "{ ", "}", "(", "for ", "case ", "function ", "f", "in ", ";;", "|", "&&", "&", ";", "-", ":", "'", "\"", "",
 ];
@@ -1734,6 +2228,7 @@ fn random_probe(rng: &mut Rng) -> String {
 }
 
 const SOUP: &[&str] = &[
+    "99999999999>", "2147483648<", "2147483647>", "esac)", "(esac)", "case x in esac", "{a}>", "{}<", "function f", "[[ a ]]", "select x", "namespace n", "!(", "a:", "export", "a=(", "x=~", ":~",
     "５", "٣", "²", "½", "Ⅷ", "ｘ", "＜", "＞", "＄", "｛", "；", "\u{2029}", "\u{1680}", "$５", "${５", "$((５", "2５>", "$é", "${é}", "é=1",
     " ", " ", "\n", "\t", ";", "&", "|", "(", ")", "<", ">", "{", "}", "$", "`", "\\", "'", "\"", "#", "~", "=", "!", "-", "*", "?", "[", "]", ":", "+", "%", "@", "0", "1", "2", "7", "a", "b", "c", "x", "u", "U", "n", "e", "E", "if", "then", "fi", "for", "in", "do", "done", "case", "esac", "while", "until", "elif", "else", "function", "[[", "]]", "select", "namespace", "$(", "${", "$((", "))", "$'", "<<", "<<-", "<<<", ">>", ">|", ">>|", "<&", ">&", "<>", "<(", ">(", ";;", ";&", ";|", ";;&", "&&", "||", "()", "\\\n", "\\c", "\\x", "\\u", "\\U", "\\0", "\\777", "EOF", "\u{a0}", "\u{2028}", "\u{3000}", "\u{85}", "\0", "\u{7f}", "\u{1b}", "é", "日", "😀", "\u{301}", "\u{feff}", "\u{10ffff}", "\r",
 ];
@@ -1828,6 +2323,12 @@ fn main() {
         }
         return;
     }
+    // a variant the parser never produces still has message arms
+    #[allow(deprecated)]
+    let _ = guarded(|| {
+        exercise_error(&Error { cause: yash_syntax::parser::SyntaxError::EsacAsPattern.into(), location: yash_syntax::source::Location::dummy("") });
+        String::new()
+    });
     let (fixed, only) = o.fixed_cases();
     for c in &fixed {
         run_case(&mut r, c);
@@ -1946,6 +2447,26 @@ fn main() {
         let s = random_probe(&mut prng);
         if mine(&mut idx) {
             run_raw(&mut r, &s, true);
+        }
+    }
+    // 5. what the shell shows to the user: `typeset -fp` and the job table
+    let n_shell = if o.thorough() { 4_000 } else { 300 };
+    let mut hrng = Rng::new(o.seed ^ 0xF0B5);
+    for k in 0..n_shell {
+        let seed = hrng.next();
+        if !mine(&mut idx) {
+            continue;
+        }
+        let is_fn = k % 2 == 0;
+        if let Some((tree, script)) = shell_cases(seed, is_fn) {
+            let case = format!("{} {} {}", if is_fn { "F" } else { "J" }, tree, enc_str(&script));
+            let (obs, oracle) = run_shell_case(is_fn, &tree, &script);
+            emit(&case, &obs, &oracle);
+        }
+    }
+    if o.extra.iter().any(|a| a == "--errors") {
+        for ((portable, v), src) in VARIANTS.lock().unwrap().iter() {
+            eprintln!("{} {} {}", if *portable { "EP" } else { "E" }, v, enc_str(src));
         }
     }
 }
